@@ -8,6 +8,11 @@ ALL = [f'C{i:02d}' for i in range(1, 21)]
 
 # id -> (level text, level note, technique, design ref)
 CHECKS = {
+    'C16': (
+        'Explicit-state exploration of API-call histories: a state is a pool of real objects (a base AST, its sub-objects, results of earlier calls); about 45 calls per object kind (printers, hash/==, traversal, reference queries, casts to 12 type sets, but() with same/changed value per field, reshape/replacements, every rewriting function, constructors around the object, schema checks); all sequences of <= 2 state-changing calls (3 on a targeted family) from every term up to 3 (thorough 4) nodes, a family aimed at rewrites that wrap existing children, annotated properties and API-built nodes over shared untyped children; every single call is followed by a deep snapshot comparison (typed lift, metadata, hash) of every pool object, and but() results are compared with fresh constructions.',
+        'Snapshots read raw attrs fields; metadata is mutable by design (the harness writes one key before the first snapshot).',
+        'explicit-state BFS over API-call sequences with before/after deep snapshots of an object pool',
+    ),
     'C14': (
         'Bounded-exhaustive totality exploration: every accepted term up to the node bound (quick 4, thorough 5) of a grammar covering every expression node kind, the complete function x argument-shape x context matrix (27 x 27 x 16) and the property skeleton universe are fed to every public rewriting function; the result kind is checked and an exception is accepted only when a reference model predicts it (undefined constant for simplify, unsatisfiable input for split_and, coinciding incompatible references for replacements on predicates).',
         'Reference evaluator / substitution / definite-type analysis decide which exceptions are allowed. Variables used as values are not message aliases and are outside the replacements\' domain.',
